@@ -169,7 +169,9 @@ structure DocReq where
   cls : String → Bool
   d : Doc
   lens : List Nat
-  ls : List (Line × Nat)
+  ls : List (Line × Nat)        -- the rendered document
+  tls : List (Line × Nat)       -- the tokenised text of the file (= `ls` when the harness sent no text)
+  tokensOk : Bool               -- the two agree up to `Line.norm`
 
 def parseDocReq (req : Json) : R DocReq := do
   let d ← fld req "doc" >>= parseDoc
@@ -181,7 +183,17 @@ def parseDocReq (req : Json) : R DocReq := do
     | _ => throw s!"bad class {cname}"
   let lines := render cls d
   if lines.length ≠ lens.length then throw s!"{lines.length} lines rendered, {lens.length} lengths given"
-  pure { cls := cls, d := d, lens := lens, ls := lines.zip lens }
+  -- the text of the file, line by line (null: not sent), classified by the code's string tests
+  let texts ← fld req "texts" >>= asOpt (asList asStr)
+  let clsC := if cname == "any" then clsAnyC else clsWordC
+  let (toks, ok) ← match texts with
+    | none => pure (lines, true)
+    | some ts =>
+      if ts.length ≠ lines.length then throw s!"{lines.length} lines rendered, {ts.length} text lines given"
+      match tokeniseAll clsC ts with
+      | none => throw "a text line is outside the domain of `tokenise`"
+      | some toks => pure (toks, toks.map Line.norm == lines.map Line.norm)
+  pure { cls := cls, d := d, lens := lens, ls := lines.zip lens, tls := toks.zip lens, tokensOk := ok }
 
 /-- one import through the fast parser with a callback: result, positions handed over, the outcomes the
 property allows and the mechanism's -/
@@ -227,6 +239,8 @@ def handle (op : String) (req : Json) : R Json := do
     let q ← parseDocReq req
     let cls := q.cls
     let d := q.d
+    -- the mechanism runs on the tokenised text of the file (`tokens_agree_modulo_inert_lines`: the same as on `q.ls`)
+    let q := { q with ls := q.tls }
     let free := run (fun _ => true) q.ls
     -- the progress callback: which object it hands back at which invocation
     let c ← fld req "cb" >>= parseCb
@@ -257,11 +271,13 @@ def handle (op : String) (req : Json) : R Json := do
                 ("text_ok", jBool (decide (TextOk d))),
                 ("layout_core_decoded", jBool (decide (LayoutCore cls xd))),
                 ("images", images),
+                ("tokens_ok", jBool q.tokensOk),
                 ("nlines", jNat q.ls.length)])
   | "c17.history" =>
     -- several imports of one document in one process (`runOps`), each with its own binary and callback,
     -- with caller edits of the returned objects in between
     let q ← parseDocReq req
+    let q := { q with ls := q.tls }
     let bins ← getList (asOpt parseBin) req "bins"
     let free := run (fun _ => true) q.ls
     let positions := callPositionsFast q.cls q.d q.lens
@@ -309,6 +325,7 @@ def handle (op : String) (req : Json) : R Json := do
     pure (jObj [("results", jList jRes sess.results), ("spec", Json.arr specs.toArray),
                 ("callbacks", Json.arr cbInfo.toArray), ("call_positions", jList jNat positions),
                 ("heap", jList (fun (o : Obj) => jObj [("model", jModel o.model), ("bin", jNat o.bin)]) sess.heap),
+                ("tokens_ok", jBool q.tokensOk),
                 ("layout", jBool (decide (Layout q.cls q.d)))])
   | _ => throw s!"unknown op {op}"
 
